@@ -891,3 +891,85 @@ func nodeIDFormat(c *Ctx, r *Report, rule string) {
 	}
 	r.check(len(ps) == 0, rule, "stringToNodeID", c.pos(parse.Pos()), "19 characters, three colons", "%s: text such as 0014:4fffxff20:ee64 or 0014:4fff:ff20:ee64zzzz is accepted and silently read as 0014:4fff:ff20:ee64", strings.Join(ps, "; "))
 }
+
+// ttlUnitsNeedNumbers: in a TTL with unit suffixes every unit letter follows a number, and the empty token is not
+// a TTL: (a) the loop carries a boolean "the previous character was a digit" whose false value sends a non-digit to
+// the rejecting return, (b) the success return is behind len(token) != 0.
+func ttlUnitsNeedNumbers(c *Ctx, r *Report, rule string) {
+	r.rule(rule, 2, "stringToTTL rejects a unit letter that does not follow a digit, and the empty token")
+	fn := c.ssaFunc("stringToTTL")
+	if fn == nil {
+		r.cerr(rule, "stringToTTL", "function not found")
+		return
+	}
+	r.fn("stringToTTL")
+	isReject := func(b *ssa.BasicBlock) bool {
+		ret, ok := b.Instrs[len(b.Instrs)-1].(*ssa.Return)
+		if !ok || len(ret.Results) != 2 {
+			return false
+		}
+		v, isB := constBool(ret.Results[1])
+		return isB && !v
+	}
+	// (a)
+	found := false
+	allInstrs(fn, func(in ssa.Instruction) {
+		phi, ok := in.(*ssa.Phi)
+		if !ok {
+			return
+		}
+		if bt, ok := phi.Type().Underlying().(*types.Basic); !ok || bt.Kind() != types.Bool {
+			return
+		}
+		hdr := phi.Block()
+		loop := false
+		for _, p := range hdr.Preds {
+			if hdr.Dominates(p) {
+				loop = true
+			}
+		}
+		if !loop {
+			return
+		}
+		for _, ref := range *phi.Referrers() {
+			iff, ok := ref.(*ssa.If)
+			if !ok {
+				continue
+			}
+			// phi false -> reject
+			if isReject(iff.Block().Succs[1]) {
+				found = true
+			}
+		}
+	})
+	r.check(found, rule, "stringToTTL:unit-after-digit", c.pos(fn.Pos()), "previous-was-digit flag", "no loop-carried 'previous character was a digit' flag sends a non-digit that follows a non-digit (or starts the token) to the rejecting return: `s`, `wd`, `$TTL h` are accepted as TTL 0 and `1hm` as 3600")
+	// (b)
+	okEmpty := true
+	n := 0
+	for _, b := range fn.Blocks {
+		ret, ok := b.Instrs[len(b.Instrs)-1].(*ssa.Return)
+		if !ok || len(ret.Results) != 2 {
+			continue
+		}
+		if v, isB := constBool(ret.Results[1]); !isB || !v {
+			continue
+		}
+		n++
+		nonEmpty := false
+		for _, f := range factsAt(fn, b) {
+			bin, ok := f.Atom.(*ssa.BinOp)
+			if !ok {
+				continue
+			}
+			call, isCall := bin.X.(*ssa.Call)
+			k, isK := constIntOf(bin.Y)
+			if isCall && calleeNameSSA(&call.Call) == "builtin.len" && isK && k == 0 && ((bin.Op == token.EQL && !f.Holds) || (bin.Op == token.NEQ && f.Holds) || (bin.Op == token.GTR && f.Holds)) {
+				nonEmpty = true
+			}
+		}
+		if !nonEmpty {
+			okEmpty = false
+		}
+	}
+	r.check(okEmpty && n > 0, rule, "stringToTTL:empty-token", c.pos(fn.Pos()), "len(token) != 0", "the success return is reachable for the empty token: an empty TTL token is accepted as 0")
+}
